@@ -1,11 +1,649 @@
-(* Params - theorems (C11). *)
+(* Params - theorems (C11).  Stdlib style. *)
 From Coq Require Import List String Ascii Bool Arith Lia.
 Import ListNotations.
 From BD.Params Require Import Model.
 
 Definition L (s : string) : la := list_ascii_of_string s.
 
-(* F11a: values with spaces do not survive record -> re-parse *)
-Lemma C11_roundtrip_refuted : exists its, V0 its = true /\
+(* ------------------------------------------------------------------------------------------------ *)
+(* characters                                                                                        *)
+(* ------------------------------------------------------------------------------------------------ *)
+Lemma aeq_refl c : aeq c c = true.
+Proof. apply Ascii.eqb_refl. Qed.
+Lemma aeq_eq a b : aeq a b = true <-> a = b.
+Proof. apply Ascii.eqb_eq. Qed.
+Lemma aeq_neq a b : aeq a b = false <-> a <> b.
+Proof. apply Ascii.eqb_neq. Qed.
+
+Lemma space_not_dq c : is_space c = true -> aeq c dq = false.
+Proof.
+  intros H. apply aeq_neq. intros ->. vm_compute in H. discriminate.
+Qed.
+Lemma space_not_bt c : is_space c = true -> aeq c bt = false.
+Proof. intros H. apply aeq_neq. intros ->. vm_compute in H. discriminate. Qed.
+Lemma space_not_eq c : is_space c = true -> aeq c eqc = false.
+Proof. intros H. apply aeq_neq. intros ->. vm_compute in H. discriminate. Qed.
+Lemma spc_space : is_space spc = true.
+Proof. reflexivity. Qed.
+
+(* ------------------------------------------------------------------------------------------------ *)
+(* span                                                                                               *)
+(* ------------------------------------------------------------------------------------------------ *)
+Definition stops (p : ascii -> bool) (rest : la) : Prop :=
+  match rest with [] => True | c :: _ => p c = false end.
+
+Lemma span_app p a rest : forallb p a = true -> stops p rest -> span p (a ++ rest) = (a, rest).
+Proof.
+  induction a as [|c a IH]; simpl; intros Ha Hr.
+  - destruct rest as [|c r]; simpl in *; [reflexivity | now rewrite Hr].
+  - apply andb_true_iff in Ha as [Hc Ha]. rewrite Hc, (IH Ha Hr). reflexivity.
+Qed.
+
+Lemma span_stop p c r : p c = false -> span p (c :: r) = ([], c :: r).
+Proof. simpl. now intros ->. Qed.
+
+(* ------------------------------------------------------------------------------------------------ *)
+(* escape / unescape / Trim                                                                           *)
+(* ------------------------------------------------------------------------------------------------ *)
+Lemma escape_app a b : escape (a ++ b) = escape a ++ escape b.
+Proof.
+  induction a as [|c a IH]; simpl; [reflexivity|].
+  destruct (aeq c dq); simpl; now rewrite IH.
+Qed.
+
+Lemma escape_head_not_dq v : head_is dq (escape v) = false.
+Proof.
+  destruct v as [|c r]; simpl; [reflexivity|].
+  destruct (aeq c dq) eqn:E; simpl; [reflexivity | exact E].
+Qed.
+
+Lemma unescape_escape v : unescape (escape v) = v.
+Proof.
+  induction v as [|c r IH]; [reflexivity|].
+  simpl. destruct (aeq c dq) eqn:E.
+  - apply aeq_eq in E. subst c. simpl. now rewrite IH.
+  - (* c is kept; the text after it never starts with a quote *)
+    pose proof (escape_head_not_dq r) as Hh.
+    destruct (escape r) as [|d r'] eqn:Er.
+    + simpl. destruct r as [|x r0]; [reflexivity|].
+      simpl in Er. destruct (aeq x dq); discriminate.
+    + simpl in Hh. change (unescape (c :: d :: r')) with
+        (if aeq c bs && aeq d dq then dq :: unescape r' else c :: unescape (d :: r')).
+      rewrite Hh, andb_false_r. now rewrite IH.
+Qed.
+
+Lemma last_is_cons c x r : last_is c (x :: r) = match r with [] => aeq x c | _ => last_is c r end.
+Proof.
+  unfold last_is. simpl. destruct r as [|y r]; [reflexivity|].
+  simpl. destruct (rev r ++ [y]) eqn:E.
+  - destruct (rev r); discriminate.
+  - reflexivity.
+Qed.
+
+Lemma last_is_snoc c v x : last_is c (v ++ [x]) = aeq x c.
+Proof. unfold last_is. rewrite rev_app_distr. reflexivity. Qed.
+
+Lemma trim_l_not_dq s : head_is dq s = false -> trim_l s = s.
+Proof. destruct s as [|c r]; simpl; [reflexivity | now intros ->]. Qed.
+
+Lemma trim_l_dq r : trim_l (dq :: r) = trim_l r.
+Proof. reflexivity. Qed.
+
+Lemma head_is_app c a b : a <> [] -> head_is c (a ++ b) = head_is c a.
+Proof. destruct a; [contradiction | reflexivity]. Qed.
+
+Lemma trim_q_quoted v : last_is dq v = false -> trim_q (quoted v) = escape v.
+Proof.
+  intros Hl. unfold trim_q, quoted. rewrite trim_l_dq.
+  destruct (rev v) as [|x rv] eqn:Erv.
+  - apply (f_equal (@rev _)) in Erv. rewrite rev_involutive in Erv. subst v. reflexivity.
+  - apply (f_equal (@rev _)) in Erv. rewrite rev_involutive in Erv. cbn [rev] in Erv. subst v.
+    rewrite last_is_snoc in Hl.
+    assert (Hne : escape (rev rv ++ [x]) <> []).
+    { rewrite escape_app. cbn [escape]. rewrite Hl. intros H. apply app_eq_nil in H as [_ H]. discriminate. }
+    rewrite (trim_l_not_dq (escape (rev rv ++ [x]) ++ [dq])).
+    2:{ rewrite head_is_app by exact Hne. apply escape_head_not_dq. }
+    rewrite rev_app_distr. cbn [rev app]. rewrite trim_l_dq.
+    rewrite trim_l_not_dq; [apply rev_involutive|].
+    rewrite escape_app. cbn [escape]. rewrite Hl. rewrite rev_app_distr. cbn [rev app head_is]. exact Hl.
+Qed.
+
+Lemma post_quoted v : last_is dq v = false -> post (quoted v) = v.
+Proof.
+  intros Hl. unfold post. change (quoted v) with (dq :: escape v ++ [dq]) at 1.
+  change (aeq dq dq) with true. cbv iota. rewrite (trim_q_quoted v Hl). apply unescape_escape.
+Qed.
+
+Lemma post_bare v : head_is dq v = false -> post v = v.
+Proof. destruct v as [|c r]; simpl; [reflexivity | now intros ->]. Qed.
+
+(* ------------------------------------------------------------------------------------------------ *)
+(* the quoted alternative on rendered text                                                            *)
+(* ------------------------------------------------------------------------------------------------ *)
+Lemma v1_cons c r : v1 (c :: r) =
+  if aeq c dq then Some ([], r)
+  else if aeq c bs then
+    match r with
+    | d :: r' => if aeq d dq
+                 then match v1 r' with Some (b, rest) => Some (c :: d :: b, rest) | None => Some ([c], r') end
+                 else match v1 r with Some (b, rest) => Some (c :: b, rest) | None => None end
+    | [] => None
+    end
+  else match v1 r with Some (b, rest) => Some (c :: b, rest) | None => None end.
+Proof. reflexivity. Qed.
+
+Lemma v1_escape v rest : last_is bs v = false -> v1 (escape v ++ dq :: rest) = Some (escape v, rest).
+Proof.
+  induction v as [|c r IH]; intros Hl.
+  - reflexivity.
+  - rewrite last_is_cons in Hl.
+    assert (Hr : last_is bs r = false) by (destruct r; [reflexivity | exact Hl]).
+    specialize (IH Hr).
+    cbn [escape]. destruct (aeq c dq) eqn:Ecq.
+    + (* an escaped quote *)
+      cbn [app]. rewrite v1_cons. change (aeq bs dq) with false. change (aeq bs bs) with true.
+      change (aeq dq dq) with true. cbv iota. now rewrite IH.
+    + destruct (aeq c bs) eqn:Ecb.
+      * (* a backslash that is not the last character: what follows is not a bare quote *)
+        apply aeq_eq in Ecb. subst c.
+        destruct r as [|d r']; [discriminate Hl|].
+        cbn [app]. rewrite v1_cons. change (aeq bs dq) with false. change (aeq bs bs) with true. cbv iota.
+        pose proof (escape_head_not_dq (d :: r')) as Hh.
+        destruct (escape (d :: r')) as [|e0 E0] eqn:Ee.
+        -- cbn [escape] in Ee. destruct (aeq d dq); discriminate.
+        -- cbn [head_is] in Hh. cbn [app] in *. rewrite Hh. now rewrite IH.
+      * cbn [app]. rewrite v1_cons, Ecq, Ecb. now rewrite IH.
+Qed.
+
+Lemma value_dq r : value (dq :: r) =
+  match v1 r with Some (b, rest) => Some (dq :: b ++ [dq], rest) | None => bare (dq :: r) end.
+Proof. reflexivity. Qed.
+
+Lemma value_quoted v rest : last_is bs v = false -> value (quoted v ++ rest) = Some (quoted v, rest).
+Proof.
+  intros H. unfold quoted. cbn [app]. rewrite value_dq.
+  rewrite <- app_assoc. cbn [app]. now rewrite (v1_escape v rest H).
+Qed.
+
+Lemma word_ok_inv v : word_ok v = true ->
+  exists c r, v = c :: r /\ aeq c dq = false /\ aeq c bt = false /\ forallb not_q_sp v = true.
+Proof.
+  unfold word_ok. intros H. apply andb_true_iff in H as [H Hb]. apply andb_true_iff in H as [Hn Hf].
+  destruct v as [|c r]; [discriminate|]. exists c, r. repeat split; try assumption.
+  - simpl in Hf. apply andb_true_iff in Hf as [Hc _]. unfold not_q_sp in Hc.
+    apply andb_true_iff in Hc as [Hc _]. now apply negb_true_iff in Hc.
+  - simpl in Hb. now apply negb_true_iff in Hb.
+Qed.
+
+Definition sep_ok (rest : la) : Prop := rest = [] \/ exists t, rest = spc :: t.
+
+Lemma sep_stops_q rest : sep_ok rest -> stops not_q_sp rest.
+Proof. intros [->|[t ->]]; simpl; [exact I | reflexivity]. Qed.
+Lemma sep_stops_e rest : sep_ok rest -> stops not_sp_eq rest.
+Proof. intros [->|[t ->]]; simpl; [exact I | reflexivity]. Qed.
+
+Lemma value_word v rest : word_ok v = true -> sep_ok rest -> value (v ++ rest) = Some (v, rest).
+Proof.
+  intros Hw Hs. destruct (word_ok_inv v Hw) as (c & r & -> & Hq & Hb & Hf).
+  simpl app. unfold value. rewrite Hq, Hb. unfold bare.
+  change (c :: r ++ rest) with ((c :: r) ++ rest).
+  rewrite (span_app not_q_sp (c :: r) rest Hf (sep_stops_q rest Hs)). reflexivity.
+Qed.
+
+(* a value cannot start at a white-space character *)
+Lemma value_space c r : is_space c = true -> value (c :: r) = None.
+Proof.
+  intros H. unfold value. rewrite (space_not_dq c H), (space_not_bt c H). unfold bare.
+  rewrite span_stop; [reflexivity|]. unfold not_q_sp. rewrite H. now rewrite andb_false_r.
+Qed.
+
+(* ------------------------------------------------------------------------------------------------ *)
+(* one token per documented item                                                                      *)
+(* ------------------------------------------------------------------------------------------------ *)
+Definition unnamed (s : la) : option (la * la * la) :=
+  match value s with Some (v, rest) => Some ([], v, rest) | None => None end.
+
+(* after the maximal name-like run: end of text, a non-= character, or an = that no value can follow *)
+Definition safe_after (after : la) : Prop :=
+  match after with
+  | [] => True
+  | e :: a' => aeq e eqc = false \/ (exists s t, a' = s :: t /\ is_space s = true)
+  end.
+
+Lemma token_unnamed s :
+  fst (span not_sp_eq s) = [] \/ safe_after (snd (span not_sp_eq s)) -> token s = unnamed s.
+Proof.
+  unfold token, unnamed. destruct (span not_sp_eq s) as [nm after]. cbn [fst snd]. intros [->|H]; [reflexivity|].
+  destruct nm as [|n0 nm]; [reflexivity|].
+  destruct after as [|e a']; [reflexivity|].
+  destruct H as [H|(sp & t & -> & Hs)].
+  - now rewrite H.
+  - destruct (aeq e eqc); [|reflexivity]. now rewrite (value_space sp t Hs).
+Qed.
+
+Lemma span_snd_pass p c r : p c = true -> snd (span p (c :: r)) = snd (span p r).
+Proof. cbn [span]. intros ->. now destruct (span p r). Qed.
+Lemma span_snd_stop p c r : p c = false -> snd (span p (c :: r)) = c :: r.
+Proof. cbn [span]. now intros ->. Qed.
+Lemma span_fst_stop p c r : p c = false -> fst (span p (c :: r)) = [].
+Proof. cbn [span]. now intros ->. Qed.
+
+Lemma no_eq_all v : forallb (fun x => negb (aeq x eqc)) v = true -> forallb not_q_sp v = true -> forallb not_sp_eq v = true.
+Proof.
+  induction v as [|c r IH]; simpl; [reflexivity|]. intros H1 H2.
+  apply andb_true_iff in H1 as [Hc H1]. apply andb_true_iff in H2 as [Hq H2].
+  rewrite (IH H1 H2), andb_true_r. unfold not_sp_eq, not_q_sp in *.
+  apply andb_true_iff in Hq as [_ Hq]. now rewrite Hq, Hc.
+Qed.
+
+Lemma token_word v rest : word_ok v = true -> no_inner_eq v = true -> sep_ok rest ->
+  token (v ++ rest) = Some ([], v, rest).
+Proof.
+  intros Hw He Hs. rewrite token_unnamed.
+  - unfold unnamed. now rewrite (value_word v rest Hw Hs).
+  - destruct (word_ok_inv v Hw) as (c & r & -> & Hq & Hb & Hf).
+    unfold no_inner_eq in He. apply orb_true_iff in He as [He|He].
+    + (* starts with = : the name-like run is empty *)
+      cbn [head_is] in He. apply aeq_eq in He. subst c. left. cbn [app]. now apply span_fst_stop.
+    + right. rewrite (span_app not_sp_eq (c :: r) rest (no_eq_all _ He Hf) (sep_stops_e rest Hs)). cbn [snd].
+      destruct Hs as [->|[t ->]]; cbn [safe_after]; [exact I | now left].
+Qed.
+
+Lemma name_ok_inv n : name_ok n = true -> exists c r, n = c :: r /\ forallb not_sp_eq n = true.
+Proof.
+  unfold name_ok. intros H. apply andb_true_iff in H as [Hn Hf].
+  destruct n as [|c r]; [discriminate|]. now exists c, r.
+Qed.
+
+Lemma token_named n raw rest tail : name_ok n = true -> value tail = Some (raw, rest) ->
+  token (n ++ eqc :: tail) = Some (n, raw, rest).
+Proof.
+  intros Hn Hv. destruct (name_ok_inv n Hn) as (c & r & -> & Hf).
+  unfold token. rewrite (span_app not_sp_eq (c :: r) (eqc :: tail) Hf); [|reflexivity].
+  rewrite aeq_refl. now rewrite Hv.
+Qed.
+
+Lemma span_quoted_safe v rest : head_ok v = true -> sep_ok rest ->
+  safe_after (snd (span not_sp_eq (escape v ++ dq :: rest))).
+Proof.
+  induction v as [|c r IH]; intros Hh Hs.
+  - cbn [escape app]. rewrite span_snd_pass by reflexivity.
+    destruct Hs as [->|[t ->]]; [exact I|]. rewrite span_snd_stop by reflexivity. now left.
+  - cbn [head_ok] in Hh. destruct (is_space c) eqn:Ec.
+    + cbn [escape]. rewrite (space_not_dq c Ec). cbn [app].
+      rewrite span_snd_stop by (unfold not_sp_eq; now rewrite Ec). left. exact (space_not_eq c Ec).
+    + destruct (aeq c eqc) eqn:Ee.
+      * apply aeq_eq in Ee. subst c. destruct r as [|sp r']; [discriminate|].
+        cbn [escape]. change (aeq eqc dq) with false. cbv iota. cbn [app].
+        rewrite span_snd_stop by reflexivity.
+        right. rewrite (space_not_dq sp Hh). cbn [app]. eauto.
+      * specialize (IH Hh Hs). cbn [escape]. destruct (aeq c dq) eqn:Eq.
+        -- cbn [app]. rewrite span_snd_pass by reflexivity. rewrite span_snd_pass by reflexivity. exact IH.
+        -- cbn [app]. rewrite span_snd_pass; [exact IH|]. unfold not_sp_eq. now rewrite Ec, Ee.
+Qed.
+
+Lemma token_quoted v rest : qval_ok v = true -> head_ok v = true -> sep_ok rest ->
+  token (quoted v ++ rest) = Some ([], quoted v, rest).
+Proof.
+  intros Hq Hh Hs. unfold qval_ok in Hq. apply andb_true_iff in Hq as [_ Hb]. apply negb_true_iff in Hb.
+  rewrite token_unnamed.
+  - unfold unnamed. now rewrite (value_quoted v rest Hb).
+  - right. unfold quoted. cbn [app]. rewrite span_snd_pass by reflexivity.
+    rewrite <- app_assoc. cbn [app]. now apply span_quoted_safe.
+Qed.
+
+(* what one item contributes *)
+Definition item_raw (it : item) : la :=
+  match it with IWord v => v | IQuoted v => quoted v | INamed _ v => v | INamedQ _ v => quoted v end.
+
+Lemma token_item it rest : v0_item it = true -> sep_ok rest ->
+  token (render_item it ++ rest) = Some (fst (item_pair it), item_raw it, rest).
+Proof.
+  destruct it as [v|v|n v|n v]; simpl; intros H Hs; apply andb_true_iff in H as [H1 H2].
+  - now apply token_word.
+  - now apply token_quoted.
+  - rewrite <- app_assoc. simpl. apply token_named; [assumption|]. now apply value_word.
+  - rewrite <- app_assoc. simpl. apply token_named; [assumption|].
+    unfold qval_ok in H2. apply andb_true_iff in H2 as [_ Hb]. apply negb_true_iff in Hb.
+    now apply value_quoted.
+Qed.
+
+Lemma post_item it : v0_item it = true -> post (item_raw it) = snd (item_pair it).
+Proof.
+  destruct it as [v|v|n v|n v]; simpl; intros H; apply andb_true_iff in H as [H1 H2].
+  - destruct (word_ok_inv v H1) as (c & r & -> & Hq & _). apply post_bare. exact Hq.
+  - unfold qval_ok in H1. apply andb_true_iff in H1 as [Hd _]. apply negb_true_iff in Hd. now apply post_quoted.
+  - destruct (word_ok_inv v H2) as (c & r & -> & Hq & _). apply post_bare. exact Hq.
+  - unfold qval_ok in H2. apply andb_true_iff in H2 as [Hd _]. apply negb_true_iff in Hd. now apply post_quoted.
+Qed.
+
+Lemma render_nonempty it : v0_item it = true -> exists c r, render_item it = c :: r.
+Proof.
+  destruct it as [v|v|n v|n v]; simpl; intros H; apply andb_true_iff in H as [H1 H2].
+  - destruct (word_ok_inv v H1) as (c & r & -> & _). eauto.
+  - unfold quoted. eauto.
+  - destruct (name_ok_inv n H1) as (c & r & -> & _). simpl. eauto.
+  - destruct (name_ok_inv n H1) as (c & r & -> & _). simpl. eauto.
+Qed.
+
+(* ------------------------------------------------------------------------------------------------ *)
+(* FindAll over a rendered list                                                                       *)
+(* ------------------------------------------------------------------------------------------------ *)
+Lemma skip_app a b : tokens_skip (List.length a) (a ++ b) = tokens_skip 0 b.
+Proof. induction a as [|c a IH]; simpl; [reflexivity | exact IH]. Qed.
+
+Lemma tokens_one t rest nm raw : t <> [] -> token (t ++ rest) = Some (nm, raw, rest) ->
+  tokens_skip 0 (t ++ rest) = (nm, post raw) :: tokens_skip 0 rest.
+Proof.
+  intros Ht Hk. destruct t as [|c t']; [contradiction|].
+  simpl app in *. cbn [tokens_skip]. rewrite Hk. f_equal.
+  replace (List.length (c :: t' ++ rest) - List.length rest - 1) with (List.length t').
+  - apply skip_app.
+  - cbn [List.length]. rewrite app_length. lia.
+Qed.
+
+Lemma tokens_sep rest : tokens_skip 0 (spc :: rest) = tokens_skip 0 rest.
+Proof.
+  cbn [tokens_skip].
+  assert (token (spc :: rest) = None) as ->; [|reflexivity].
+  rewrite token_unnamed; [|left; now apply span_fst_stop].
+  unfold unnamed. now rewrite (value_space spc rest spc_space).
+Qed.
+
+Theorem parse_doc : forall its, V0 its = true -> parse (doc_render its) = values its.
+Proof.
+  unfold parse, tokens, doc_render, values, V0.
+  induction its as [|it its IH]; intros HV; [reflexivity|].
+  simpl in HV. apply andb_true_iff in HV as [Hi HV]. specialize (IH HV).
+  destruct (render_nonempty it Hi) as (c & r & Hr).
+  destruct its as [|it2 its'].
+  - simpl map. simpl join. rewrite <- (app_nil_r (render_item it)).
+    rewrite (tokens_one (render_item it) [] (fst (item_pair it)) (item_raw it));
+      [| rewrite Hr; discriminate | apply token_item; [assumption | now left]].
+    rewrite (post_item it Hi). cbn [tokens_skip map]. now destruct (item_pair it).
+  - change (join (map render_item (it :: it2 :: its'))) with
+      (render_item it ++ spc :: join (map render_item (it2 :: its'))).
+    rewrite (tokens_one (render_item it) _ (fst (item_pair it)) (item_raw it));
+      [| rewrite Hr; discriminate | apply token_item; [assumption | right; eauto]].
+    rewrite tokens_sep, IH, (post_item it Hi). cbn [map]. now destruct (item_pair it).
+Qed.
+
+(* ------------------------------------------------------------------------------------------------ *)
+(* record -> re-parse                                                                                 *)
+(* ------------------------------------------------------------------------------------------------ *)
+Definition to_item (p : pair) : item := match fst p with [] => IWord (snd p) | n => INamed n (snd p) end.
+
+Lemma to_item_render p : render_item (to_item p) = stringify p.
+Proof. destruct p as [[|n0 n] v]; reflexivity. Qed.
+Lemma to_item_pair p : item_pair (to_item p) = p.
+Proof. destruct p as [[|n0 n] v]; reflexivity. Qed.
+Lemma to_item_v0 p : v0_item (to_item p) = v1_pair p.
+Proof. destruct p as [[|n0 n] v]; reflexivity. Qed.
+
+Theorem record_parse : forall ps, V1 ps = true -> parse (record ps) = ps.
+Proof.
+  intros ps H. unfold record.
+  replace (map stringify ps) with (map render_item (map to_item ps))
+    by (rewrite map_map; apply map_ext; intros; apply to_item_render).
+  change (join (map render_item (map to_item ps))) with (doc_render (map to_item ps)).
+  rewrite parse_doc.
+  - unfold values. rewrite map_map. rewrite <- (map_id ps) at 2. apply map_ext. intros; apply to_item_pair.
+  - unfold V0, V1 in *. rewrite forallb_forall in *. intros x Hx. apply in_map_iff in Hx as (p & <- & Hp).
+    rewrite to_item_v0. now apply H.
+Qed.
+
+Theorem roundtrip : forall s, V1 (parse s) = true -> parse (record (parse s)) = parse s.
+Proof. intros s H. now apply record_parse. Qed.
+
+(* documented items made of words only survive the round trip as well *)
+Corollary roundtrip_doc : forall its, V0 its = true -> V1 (values its) = true ->
+  parse (record (parse (doc_render its))) = parse (doc_render its).
+Proof. intros its H0 H1. rewrite (parse_doc its H0). now apply record_parse. Qed.
+
+(* ------------------------------------------------------------------------------------------------ *)
+(* the assignment list                                                                                *)
+(* ------------------------------------------------------------------------------------------------ *)
+Theorem assigns_doc : forall its, V0 its = true -> assigns (parse (doc_render its)) = assigns (values its).
+Proof. intros its H. now rewrite parse_doc. Qed.
+
+Lemma assigns_from_pos : forall ps k i p, nth_error ps i = Some p ->
+  In (dec (k + i), stringify p) (assigns_from k ps).
+Proof.
+  induction ps as [|q ps IH]; intros k i p H; [destruct i; discriminate|].
+  destruct i as [|i]; simpl in *.
+  - injection H as Hq. subst q. left. now rewrite Nat.add_0_r.
+  - right. apply in_or_app. right. replace (k + S i) with (S k + i) by lia. now apply IH.
+Qed.
+
+Lemma assigns_from_named : forall ps k i p, nth_error ps i = Some p -> fst p <> [] ->
+  In (fst p, snd p) (assigns_from k ps).
+Proof.
+  induction ps as [|q ps IH]; intros k i p H Hn; [destruct i; discriminate|].
+  destruct i as [|i]; simpl in *.
+  - injection H as Hq. subst q. right. apply in_or_app. left.
+    destruct p as [[|a l] v]; cbn [fst snd] in *; [exfalso; now apply Hn | now left].
+  - right. apply in_or_app. right. now apply (IH (S k) i).
+Qed.
+
+(* every documented item is exported: position i+1 carries the stringified item, a named item is also
+   exported under its name with exactly its value *)
+Theorem env_doc : forall its i it, V0 its = true -> nth_error its i = Some it ->
+  In (dec (S i), stringify (item_pair it)) (assigns (parse (doc_render its))) /\
+  (fst (item_pair it) <> [] -> In (item_pair it) (assigns (parse (doc_render its)))).
+Proof.
+  intros its i it HV Hn. rewrite (assigns_doc its HV). unfold assigns, values.
+  assert (H : nth_error (map item_pair its) i = Some (item_pair it)) by (now apply map_nth_error).
+  split.
+  - exact (assigns_from_pos _ 1 i _ H).
+  - intros Hne. pose proof (assigns_from_named _ 1 i _ H Hne) as H'. now destruct (item_pair it).
+Qed.
+
+(* ------------------------------------------------------------------------------------------------ *)
+(* What the faithful model refutes                                                                    *)
+(* ------------------------------------------------------------------------------------------------ *)
+(* Full statement (false):  forall its (any values), parse (doc_render its) = values its
+                            forall its, parse (record (parse (doc_render its))) = parse (doc_render its) *)
+
+(* F11a: a value with a space does not survive record -> re-parse (the item list is in V0) *)
+Lemma roundtrip_refuted : exists its, V0 its = true /\
   parse (record (parse (doc_render its))) <> parse (doc_render its).
 Proof. exists [IQuoted (L "a b"); IWord (L "c")]. split; [reflexivity | vm_compute; discriminate]. Qed.
+
+Lemma roundtrip_named_refuted : exists its, V0 its = true /\
+  parse (record (parse (doc_render its))) <> parse (doc_render its).
+Proof. exists [INamedQ (L "X") (L "a b")]. split; [reflexivity | vm_compute; discriminate]. Qed.
+
+(* F11b: a quoted value ending in an (escaped) quote is mangled by Trim; one ending in a backslash swallows
+   the closing quote *)
+Lemma parse_doc_refuted_edge_quote : exists v, parse (doc_render [IQuoted v]) <> values [IQuoted v].
+Proof. exists (list_ascii_of_string "say " ++ dq :: list_ascii_of_string "hi" ++ [dq]). vm_compute. discriminate. Qed.
+
+Lemma parse_doc_refuted_edge_backslash : exists v w, parse (doc_render [IQuoted v; IQuoted w]) <> values [IQuoted v; IQuoted w].
+Proof. exists [ascii_of_nat 97; bs], [ascii_of_nat 98]. vm_compute. discriminate. Qed.
+
+(* F11c: an unnamed quoted value with an = before any space is tokenised as a named parameter *)
+Lemma parse_doc_refuted_eq : exists v, parse (doc_render [IQuoted v]) <> values [IQuoted v].
+Proof. exists (L "a=b"). vm_compute. discriminate. Qed.
+
+(* ------------------------------------------------------------------------------------------------ *)
+(* Satisfiability of the classes                                                                      *)
+(* ------------------------------------------------------------------------------------------------ *)
+(* V0 holds spaces, =, inner and leading quotes, back-ticks, backslashes, an empty quoted value, a word
+   starting with = , a named word with = *)
+Example V0_example :
+  V0 [IWord (L "a"); IQuoted (L "a b = c"); INamed (L "X") (L "1=2"); INamedQ (L "Y") (L " p=q  r ");
+      IQuoted (dq :: L "hi" ++ dq :: L " there"); IQuoted []; IWord (L "=x"); IQuoted (L "a= b");
+      INamedQ (L "Z") (L "`date` \x"); IQuoted (L "k =v")] = true.
+Proof. reflexivity. Qed.
+
+Example V1_example : V1 [([], L "a"); (L "X", L "1=2"); ([], L "=x"); ([], L "a\b`c")] = true.
+Proof. reflexivity. Qed.
+
+Example parse_doc_example :
+  parse (doc_render [IQuoted (L "a b = c"); INamedQ (L "Y") (dq :: L "q" ++ dq :: L " r")]) =
+  [([], L "a b = c"); (L "Y", dq :: L "q" ++ dq :: L " r")].
+Proof. reflexivity. Qed.
+
+(* ------------------------------------------------------------------------------------------------ *)
+(* Captured outputs                                                                                   *)
+(* ------------------------------------------------------------------------------------------------ *)
+Lemma la_eqb_refl a : la_eqb a a = true.
+Proof. induction a as [|c a IH]; simpl; [reflexivity | now rewrite aeq_refl, IH]. Qed.
+
+Lemma la_eqb_eq a b : la_eqb a b = true <-> a = b.
+Proof.
+  split; [|intros ->; apply la_eqb_refl].
+  revert b; induction a as [|c a IH]; destruct b as [|d b]; simpl; try discriminate; [reflexivity|].
+  intros H. apply andb_true_iff in H as [H1 H2]. apply aeq_eq in H1. subst d. f_equal. now apply IH.
+Qed.
+
+Lemma la_eqb_sym a b : la_eqb a b = la_eqb b a.
+Proof.
+  destruct (la_eqb a b) eqn:E1, (la_eqb b a) eqn:E2; try reflexivity.
+  - apply la_eqb_eq in E1. subst b. now rewrite la_eqb_refl in E2.
+  - apply la_eqb_eq in E2. subst b. now rewrite la_eqb_refl in E1.
+Qed.
+
+Lemma oget_ostore_same k v m : oget k (ostore k v m) = Some v.
+Proof.
+  induction m as [|[k' v'] m IH]; simpl.
+  - now rewrite la_eqb_refl.
+  - destruct (la_eqb k k') eqn:E; simpl; [now rewrite la_eqb_refl | now rewrite E].
+Qed.
+
+Lemma oget_ostore_other k k2 v m : la_eqb k k2 = false -> oget k (ostore k2 v m) = oget k m.
+Proof.
+  intros Hn. induction m as [|[k' v'] m IH]; simpl.
+  - now rewrite Hn.
+  - destruct (la_eqb k2 k') eqn:E; simpl.
+    + apply la_eqb_eq in E. subst k'. now rewrite Hn.
+    + destruct (la_eqb k k'); [reflexivity | exact IH].
+Qed.
+
+Lemma oflow_app m a b : oflow m (a ++ b) = oflow m a ++ oflow (ofinal m a) b.
+Proof.
+  revert m; induction a as [|e a IH]; intros m; [reflexivity|].
+  destruct e; simpl; [apply IH | now rewrite IH].
+Qed.
+Lemma ofinal_app m a b : ofinal m (a ++ b) = ofinal (ofinal m a) b.
+Proof. revert m; induction a as [|e a IH]; intros m; [reflexivity|]. destruct e; simpl; apply IH. Qed.
+
+(* no later attempt of a step with the same output name in between *)
+Definition no_writer (n : la) (evs : list oevent) : Prop :=
+  forall n' c', In (OEnd n' c') evs -> la_eqb n n' = false.
+
+Lemma oget_ofinal_keep n m evs : no_writer n evs -> oget n (ofinal m evs) = oget n m.
+Proof.
+  revert m; induction evs as [|e evs IH]; intros m H; [reflexivity|].
+  assert (H' : no_writer n evs) by (intros ? ? Hin; apply (H n' c'); now right).
+  destruct e as [n' c'|i]; simpl.
+  - rewrite (IH _ H'). apply oget_ostore_other. apply (H n' c'). now left.
+  - exact (IH _ H').
+Qed.
+
+Lemma value_of_entry n c m : oget n m = Some (entry n c) -> value_of n m = Some (trim_space c).
+Proof.
+  intros H. unfold value_of. rewrite H. unfold entry. f_equal.
+  replace (S (List.length n)) with (List.length (n ++ [eqc])) by (rewrite app_length; simpl; lia).
+  change (n ++ eqc :: trim_space c) with (n ++ [eqc] ++ trim_space c). rewrite app_assoc.
+  now rewrite skipn_app, skipn_all, Nat.sub_diag.
+Qed.
+
+(* Every command started after the end of a producer's attempt - a later step at any distance, a handler -
+   sees NAME = TrimSpace(captured), as long as no other attempt stored the same name in between. *)
+Theorem output_flow : forall m0 pre n c mid j post,
+  no_writer n mid ->
+  exists before seen after,
+    oflow m0 (pre ++ OEnd n c :: mid ++ OStart j :: post) = before ++ (j, seen) :: after /\
+    List.length before = List.length (oflow m0 (pre ++ OEnd n c :: mid)) /\
+    value_of n seen = Some (trim_space c).
+Proof.
+  intros m0 pre n c mid j post H.
+  exists (oflow m0 (pre ++ OEnd n c :: mid)), (ofinal m0 (pre ++ OEnd n c :: mid)),
+         (oflow (ofinal m0 (pre ++ OEnd n c :: mid)) post).
+  split; [|split; [reflexivity|]].
+  - replace (pre ++ OEnd n c :: mid ++ OStart j :: post) with ((pre ++ OEnd n c :: mid) ++ OStart j :: post)
+      by (rewrite <- app_assoc; reflexivity).
+    now rewrite oflow_app.
+  - apply value_of_entry. rewrite ofinal_app. simpl. rewrite (oget_ofinal_keep n _ mid H).
+    apply oget_ostore_same.
+Qed.
+
+(* the map at the end of the run (what handlers get, and what the status file records for a retry) *)
+Theorem output_final : forall m0 pre n c mid, no_writer n mid ->
+  value_of n (ofinal m0 (pre ++ OEnd n c :: mid)) = Some (trim_space c).
+Proof.
+  intros. apply value_of_entry. rewrite ofinal_app. simpl. rewrite (oget_ofinal_keep n _ mid H).
+  apply oget_ostore_same.
+Qed.
+
+(* maps built by Store have one entry per name; re-installing such a map for a retry gives it back *)
+Fixpoint has_key (k : la) (m : omap) : bool :=
+  match m with [] => false | (k', _) :: r => la_eqb k k' || has_key k r end.
+Fixpoint uniq (m : omap) : Prop := match m with [] => True | (k, _) :: r => has_key k r = false /\ uniq r end.
+
+Lemma has_key_ostore k k2 v m : has_key k (ostore k2 v m) = la_eqb k k2 || has_key k m.
+Proof.
+  induction m as [|[k' v'] m IH]; simpl; [reflexivity|].
+  destruct (la_eqb k2 k') eqn:E; simpl.
+  - apply la_eqb_eq in E. subst k'. now destruct (la_eqb k k2).
+  - rewrite IH. destruct (la_eqb k k'), (la_eqb k k2); reflexivity.
+Qed.
+
+Lemma uniq_ostore k v m : uniq m -> uniq (ostore k v m).
+Proof.
+  induction m as [|[k' v'] m IH]; simpl; intros H; [now split|].
+  destruct H as [H1 H2]. destruct (la_eqb k k') eqn:E; simpl.
+  - apply la_eqb_eq in E. subst k'. now split.
+  - split; [|now apply IH]. rewrite has_key_ostore, H1, orb_false_r. now rewrite la_eqb_sym.
+Qed.
+
+Lemma uniq_ofinal m evs : uniq m -> uniq (ofinal m evs).
+Proof.
+  revert m; induction evs as [|e evs IH]; intros m H; [exact H|].
+  destruct e; simpl; apply IH; [now apply uniq_ostore | exact H].
+Qed.
+
+Lemma ostore_fresh k v m : has_key k m = false -> ostore k v m = m ++ [(k, v)].
+Proof.
+  induction m as [|[k' v'] m IH]; simpl; intros H; [reflexivity|].
+  apply orb_false_iff in H as [H1 H2]. rewrite H1. now rewrite IH.
+Qed.
+
+Lemma has_key_app k a b : has_key k (a ++ b) = has_key k a || has_key k b.
+Proof. induction a as [|[k' v'] a IH]; simpl; [reflexivity|]. now rewrite IH, orb_assoc. Qed.
+
+Lemma reinstall_from acc m : uniq (acc ++ m) ->
+  fold_left (fun a kv => ostore (fst kv) (snd kv) a) m acc = acc ++ m.
+Proof.
+  revert acc; induction m as [|[k v] m IH]; intros acc H; simpl; [now rewrite app_nil_r|].
+  assert (Hk : has_key k acc = false).
+  { clear IH. induction acc as [|[k' v'] acc IHa]; [reflexivity|].
+    simpl in H. destruct H as [H1 H2]. simpl. rewrite (IHa H2), orb_false_r.
+    rewrite has_key_app in H1. apply orb_false_iff in H1 as [_ H1]. simpl in H1.
+    apply orb_false_iff in H1 as [H1 _]. now rewrite la_eqb_sym. }
+  rewrite (ostore_fresh k v acc Hk). rewrite IH; rewrite <- app_assoc; [reflexivity | exact H].
+Qed.
+
+Theorem reinstall_id m : uniq m -> reinstall m = m.
+Proof. intros H. unfold reinstall. now rewrite (reinstall_from [] m H). Qed.
+
+(* a step of a later retry run sees the same value *)
+Theorem output_retry : forall pre n c mid, no_writer n mid ->
+  value_of n (reinstall (ofinal [] (pre ++ OEnd n c :: mid))) = Some (trim_space c).
+Proof.
+  intros. rewrite reinstall_id; [now apply output_final | apply uniq_ofinal; exact I].
+Qed.
+
+(* TrimSpace: some values of the model's trim (the white-space set is compared with the Go library on every run) *)
+Example trim_examples :
+  trim_space (L "  a b
+") = L "a b" /\ trim_space [ascii_of_nat 194; ascii_of_nat 160; ascii_of_nat 120; ascii_of_nat 226; ascii_of_nat 128; ascii_of_nat 131] = [ascii_of_nat 120]
+  /\ trim_space [ascii_of_nat 120; ascii_of_nat 226; ascii_of_nat 128; ascii_of_nat 139] = [ascii_of_nat 120; ascii_of_nat 226; ascii_of_nat 128; ascii_of_nat 139].
+Proof. repeat split; reflexivity. Qed.
+
+Example output_flow_example :
+  oflow [] [OEnd (L "OUT") (L " x y
+"); OStart 1; OEnd (L "B") (L "2"); OStart 2] =
+  [(1, [(L "OUT", L "OUT=x y")]); (2, [(L "OUT", L "OUT=x y"); (L "B", L "B=2")])].
+Proof. reflexivity. Qed.
